@@ -2,7 +2,7 @@
 (* Direction B for C23: validates recorded source-code-info of the real compiler.
 
    One trace per case (a FileFeatures workspace, or a Layout of a featgen skeleton):
-       Begin(id, syntax, features, measured shape, line widths, ncom)
+       Begin(id, skel, syntax, features, measured shape, line widths, ncom)     skel = "" or a skeleton id
        Mode("std") Loc* Mode("ec") Loc* Mode("eol") Loc* Mode("both") Loc*      End
    std = SourceInfoStandard, ec = +ExtraComments, eol = +ExtraOptionLocations, both = all three.
    A Loc event is one SourceCodeInfo.Location of main.proto: path p, span s, and its comments, each
@@ -75,7 +75,7 @@ ModeEndProblems ==
 TBegin ==
   /\ Ev.e = "Begin"
   /\ LET fset == ToSet(Ev.features)
-         sh   == Shape(Ev.syntax, fset)
+         sh   == IF Ev.skel \in LocalSkels THEN LocalShape(Ev.skel) ELSE Shape(Ev.syntax, fset)
          f    == (IF Valid(Ev.syntax, fset) THEN {} ELSE {"harness_invalid_case"})
                  \cup (IF Ev.shape = sh THEN {} ELSE {"harness_shape_mismatch"})
      IN /\ (mode # "" => Verdict(fails \cup {"truncated_trace"}, first))
